@@ -64,3 +64,38 @@ package gsm7encoding
 //@     invariant forall j int :: 0 <= j && j < len(septets) ==> septets[j] == specSeptet(src, j)
 //@     invariant alloc <= entry(alloc) + 8 * count
 //@     decreases remain
+
+// ---------------------------------------------------------------- alphabet level (C08 in part, C03)
+// Encode: the septets produced are alphabet codes (below 0x80, in the default table) and every ESC is followed by a code
+// of the extension table; a rune in neither table is refused. Decode / validators: total, terminating, bounded allocation.
+
+//@ pred gsmwf(s Bytes) = forall i int :: 0 <= i && i < len(s) ==> (at(s, i) != 27 ==> mapdom(reverseLookup, at(s, i))) && (at(s, i) == 27 ==> i + 1 < len(s) && mapdom(reverseEscape, at(s, i + 1)))
+
+//@ func Encode
+//@   props C08,C03
+//@   ensures [C08 empty] len(src) == 0 ==> err == nil && len(dst) == 0
+//@   ensures [C08 wellformed] err == nil ==> gsmwf(content(dst)) && len(dst) <= 2 * len(src)
+//@   ensures [C08 refuse] err != nil ==> len(dst) == 0
+//@   ensures [C03 alloc] alloc <= 16 * len(src) + 64
+//@   loop 1
+//@     invariant 0 <= rangepos && rangepos <= len(src)
+//@     invariant gsmwf(content(septets)) && len(septets) <= 2 * rangepos
+//@     invariant alloc <= entry(alloc) + 10 * rangepos
+//@     decreases len(src) - rangepos
+
+//@ func Decode
+//@   props C08,C03
+//@   ensures [C03 alloc] alloc <= 16 * len(septets) + 64
+//@   ensures [C08 refuse] err != nil ==> len(dst) == 0
+//@   loop 1
+//@     invariant 0 <= nSeptet && nSeptet <= len(septets)
+//@     invariant alloc <= entry(alloc) + 12 * nSeptet
+//@     decreases len(septets) - nSeptet
+
+//@ func ValidateGSM7Buffer
+//@   props C08,C03
+//@   ensures [C03 alloc] alloc <= 8 * len(buffer) + 64
+//@   loop 1
+//@     invariant 0 <= count && count <= len(buffer)
+//@     invariant alloc <= entry(alloc) + 6 * count
+//@     decreases len(buffer) - count
